@@ -17,7 +17,7 @@ if ! (cd "$wt" && go build ./... 2>/dev/null); then echo "$patch | DOES-NOT-BUIL
 mkdir -p "$vd/bin"; cp -r /verif/harness /verif/known_findings.json "$vd/"; cp /verif/bin/symgo "$vd/bin/"
 res=""
 for p in "$@"; do
-  out=$(VERIF_REPO="$wt" VERIF_DIR="$vd" timeout ${TMO:-1500} "$vd/bin/symgo" check $p $tier 2>&1 | grep -E "^VIOLATION|^  harness=|held on everything|^INCONCLUSIVE|^VACUOUS|^KNOWN" | head -3 | tr '\n' ' ' | sed "s#$vd#/verif#g")
+  out=$(VERIF_REPO="$wt" VERIF_DIR="$vd" timeout ${TMO:-1500} "$vd/bin/symgo" check $p $tier ${EXTRA:-} 2>&1 | grep -E "^VIOLATION|^  harness=|held on everything|^INCONCLUSIVE|^VACUOUS|^KNOWN" | head -3 | tr '\n' ' ' | sed "s#$vd#/verif#g")
   [ -z "$out" ] && out="NO-VERDICT(timeout/crash)"
   res="$res | $p: $(echo $out | cut -c1-260)"
 done
